@@ -38,6 +38,7 @@ func resolvePkg(w *World, short string) string {
 func LemmaObl(w *World, id string, l LemmaSpec) ([]*Obl, *FnResult) {
 	name := "lemma." + id + "." + l.Name
 	fc := NewFnCtx(w, nil, nil, "contract")
+	fc.B.DecFull = l.DecFull
 	res := &FnResult{Fn: name}
 	var obl *Obl
 	func() {
@@ -75,7 +76,7 @@ func LemmaObl(w *World, id string, l LemmaSpec) ([]*Obl, *FnResult) {
 		}
 		g := fc.evalBool(env, e)
 		obl = &Obl{Name: name, Kind: "lemma", Expect: "unsat", Src: l.Src, Fn: name, ModelVars: fc.modelVars}
-		obl.Script = fc.B.Script() + "(assert " + not(g) + ")\n(check-sat)\n"
+		obl.Script = fc.B.Script() + "(assert " + simplifyLine(not(g)) + ")\n(check-sat)\n"
 	}()
 	var out []*Obl
 	if obl != nil {
